@@ -67,4 +67,12 @@ mod verif_kani_windows_step {
         let r2 = it2.next();
         assert!(r2 == r.map(|x| x | ((log as u64) << 42)));
     }
+
+    /// AXIOM windows_mask (contracts/windows.vc): value of the const-evaluated NumericWindows::MASK (its initialiser calls
+    /// wrapping_sub, which Verus cannot evaluate in a const) and of the constants it is built from.
+    #[kani::proof]
+    fn axiom_windows_mask() {
+        assert!(NumericWindows::ILOG2_OF_ALPHABETS == 6 && NumericWindows::BITS == 42);
+        assert!(NumericWindows::MASK == 0x3ff_ffff_ffff);
+    }
 }
